@@ -7,6 +7,8 @@
 From Apko Require Import Base.Prelude Base.Regex Base.C12Lib Model.Version Model.Lock Spec.LockSpec
   Proofs.LockProofs Generated.Regexes Generated.VersionConsts Generated.C09Lock.
 From Apko Require Model.Resolver Spec.ResolveSpec Proofs.ResolveTheorems Proofs.LockFixpointResolver Proofs.LockFixpointSuccess.
+From Apko Require Import Model.LockArchOrder Proofs.LockUnifyOrder Proofs.LockPinProofs.
+From Apko Require Proofs.LockFixpointPinned Model.LockBuild Proofs.LockBuildProofs.
 From Coq Require Import Permutation Sorted.
 Open Scope string_scope. Open Scope list_scope.
 
@@ -242,6 +244,186 @@ Theorem c09_fixpoint_resolver_refuted :
 Proof. exact LockFixpointResolver.fixpoint_finds_locked_refuted. Qed.
 Print Assumptions c09_fixpoint_resolver_refuted.
 
+(* ---- session 4 ---------------------------------------------------------------------- *)
+
+(* what LockImageConfiguration hands to unify is well formed for EVERY resolution
+   result: packages = keys(versions), no duplicates, provided sets only for listed
+   packages, none empty (everything the correspondence's wf_resolved_b tests) — so
+   c09_unify_index / c09_unify_per_arch apply to every real call: *)
+Theorem c09_resolved_of_wf : forall arch pkgs, wf_full (resolved_of arch pkgs).
+Proof. exact resolved_of_wf. Qed.
+Print Assumptions c09_resolved_of_wf.
+
+(* ... LockImageConfiguration (architectures visited in the order goextract read
+   from its loop: Generated.C09Lock.lock_archs_order) is unify on well-formed
+   inputs with distinct architectures, none called "index" *)
+Theorem c09_lock_image_configuration_inputs : forall ord ordp originals delivered,
+  NoDup (List.map fst delivered) -> ~ In unify_index_key (List.map fst delivered) ->
+  lock_image_configuration_now ord ordp originals delivered = unify ord ordp originals (inputs_of (visit_order delivered)) /\
+  Forall wf_full (inputs_of (visit_order delivered)) /\
+  NoDup (List.map r_arch (inputs_of (visit_order delivered))) /\
+  ~ In unify_index_key (List.map r_arch (inputs_of (visit_order delivered))).
+Proof. exact lock_image_configuration_inputs. Qed.
+Print Assumptions c09_lock_image_configuration_inputs.
+
+(* the order of the architectures, the missing part of c09_unify_arch_order_partial:
+   when two orders of the same inputs both succeed the two results are equal as Go
+   maps — every key of the lock map (the shared "index" list included) and of the
+   missing map looks up the same list *)
+Theorem c09_unify_arch_order_lists_equal : forall ord ordp ord' ordp' originals inputs inputs' bya mba bya' mba',
+  (forall i l, Permutation (ord i l) l) -> (forall i l, Permutation (ord' i l) l) ->
+  originals <> [] -> Permutation inputs inputs' ->
+  Forall wf_resolved inputs -> Forall (fun r => NoDup (r_packages r)) inputs ->
+  NoDup (List.map r_arch inputs) -> ~ In unify_index_key (List.map r_arch inputs) ->
+  unify ord ordp originals inputs = Ok (bya, mba) ->
+  unify ord' ordp' originals inputs' = Ok (bya', mba') ->
+  forall k, alookup k bya = alookup k bya' /\ alookup k mba = alookup k mba'.
+Proof. exact unify_arch_order_lists_equal. Qed.
+Print Assumptions c09_unify_arch_order_lists_equal.
+
+(* and WHETHER there is a result does not depend on the order either when the
+   architectures agree on who provides the REQUESTED names (the common case;
+   c09_unify_arch_order_refuted is a request "v" provided on one architecture only) *)
+Theorem c09_unify_arch_order_independent : forall ord ordp ord' ordp' originals inputs inputs',
+  (forall i l, Permutation (ord i l) l) -> (forall i l, Permutation (ord' i l) l) ->
+  (forall l, Permutation (ordp l) l) -> (forall l, Permutation (ordp' l) l) ->
+  Permutation inputs inputs' -> Forall wf_resolved inputs ->
+  Forall (fun r => incl (akeys (r_provided r)) (r_packages r)) inputs ->
+  agree_on (o_packages (parse_originals originals)) inputs ->
+  (unify ord ordp originals inputs = Err <-> unify ord' ordp' originals inputs' = Err).
+Proof. exact unify_arch_order_error_iff. Qed.
+Print Assumptions c09_unify_arch_order_independent.
+
+(* LockImageConfiguration since fix 8c1f464: the keys of toInstalls are sorted
+   before the loop (lock_archs_order = "sorted" is what goextract read from the
+   loop on this run), so its result is a function of the SET of per-architecture
+   resolutions: whatever order the map range delivers them in, whatever the
+   iteration orders of the sets *)
+Theorem c09_shared_lock_sorted_order_deterministic : forall ord ordp ord' ordp' originals delivered delivered',
+  (forall i l, Permutation (ord i l) l) -> (forall i l, Permutation (ord' i l) l) ->
+  (forall l, Permutation (ordp l) l) -> (forall l, Permutation (ordp' l) l) ->
+  NoDup (List.map fst delivered) -> Permutation delivered delivered' ->
+  lock_archs_order = "sorted" /\
+  lock_image_configuration_now ord ordp originals delivered =
+  lock_image_configuration_now ord' ordp' originals delivered'.
+Proof.
+  intros ord ordp ord' ordp' originals d d' Ho Ho' Hp Hp' ND P. split; [exact archs_sorted_today|].
+  exact (lock_image_configuration_deterministic ord ordp ord' ordp' originals d d' Ho Ho' Hp Hp' ND P).
+Qed.
+Print Assumptions c09_shared_lock_sorted_order_deterministic.
+
+(* the @pin of an entry.  unify reads a request with its own splitter (text from
+   the first '@'; name = text before the first of "=<>~" minus that suffix); on
+   every request that matches packageNameRegex and is not rewritten by the soname
+   special case (plain_request) this is exactly what the resolver's grammar reads
+   (Model/Version.resolve_constraint, C03): unify_pin = spec_pin.  The pin is
+   re-attached to the entry of package n only if n is the NAME of a request *)
+Theorem c09_unify_pin_is_spec_pin : forall originals, Forall plain_request originals ->
+  (forall o, In o originals ->
+     let '(name, _, pinned) := parse_original o in
+     name = c_name (resolve_constraint o) /\ pinned = pin_text (resolve_constraint o)) /\
+  (forall n, unify_pin originals n = spec_pin originals n) /\
+  (forall n, (forall o, In o originals -> c_name (resolve_constraint o) <> n) -> unify_pin originals n = "").
+Proof.
+  intros originals H. split; [|split].
+  - intros o Ho. rewrite Forall_forall in H. exact (request_read_alike o (H o Ho)).
+  - exact (unify_pin_is_spec_pin originals H).
+  - intros n Hn. exact (pin_only_for_requested_names originals n H Hn).
+Qed.
+Print Assumptions c09_unify_pin_is_spec_pin.
+
+(* the fixpoint against the resolver model WITH tagged repositories (the members may
+   come from "@tag" repositories; c09_fixpoint_resolver_partial needed them all
+   untagged).  For the per-architecture lock that unify emits for the request list
+   [originals] (arch_lock = what c09_unify_per_arch says is stored under that
+   architecture, LockFixpointPinned.arch_lock_of_unify) and for every other list L of
+   the same entries name=version[@pin], inside C02's envelope:
+     - which entries carry a pin: unify_pin = spec_pin, none for a name that was not requested;
+     - WHENEVER L resolves it resolves to exactly the members;
+     - a member of a tagged repository whose entry carries no pin makes L unresolvable
+       (finding C09-F1: with the previous clause, every member of a tagged repository
+       that was not requested BY NAME with its tag);
+     - L DOES resolve when every member of a tagged repository carries its tag
+       (tags_attached), tagged members are depended on by their own name only
+       (pinned_by_own_name), versions parse, and the two hypotheses of
+       c09_fixpoint_resolver_partial (no_member_excluded, deps_wellformed) hold.
+   PARTIAL: inside the envelope and under those hypotheses. *)
+Theorem c09_fixpoint_pinned_partial : forall (U : Resolver.universe) W dq0 S originals arch,
+  ResolveSpec.envelope_b U W = true -> Resolver.resolve U W dq0 = Ok S ->
+  (forall j, In j S -> LockFixpointResolver.lockable (nth j U Resolver.dummy_pkg)) ->
+  Forall plain_request originals ->
+  let pin := unify_pin originals in
+  (forall n, pin n = spec_pin originals n) /\
+  (forall n, (forall o, In o originals -> c_name (resolve_constraint o) <> n) -> pin n = "") /\
+  LockFixpointPinned.lists_pinned_entries pin U S (LockFixpointPinned.arch_lock originals arch U S) /\
+  (forall L, LockFixpointPinned.lists_pinned_entries pin U S L ->
+     ResolveSpec.envelope_b U L = true /\ forall S', Resolver.resolve U L dq0 = Ok S' -> forall j, In j S' <-> In j S) /\
+  (forall L j, LockFixpointPinned.lists_pinned_entries pin U S L -> In j S ->
+     Resolver.p_pin (nth j U Resolver.dummy_pkg) <> "" -> pin (Resolver.p_name (nth j U Resolver.dummy_pkg)) = "" ->
+     forall S', Resolver.resolve U L dq0 <> Ok S') /\
+  (LockFixpointPinned.versions_parse U S -> LockFixpointPinned.tags_attached pin U S -> LockFixpointPinned.pinned_by_own_name U S ->
+   LockFixpointSuccess.no_member_excluded U S -> LockFixpointSuccess.deps_wellformed U S ->
+   forall L, LockFixpointPinned.lists_pinned_entries pin U S L ->
+   exists S', Resolver.resolve U L dq0 = Ok S' /\ forall j, In j S' <-> In j S).
+Proof. exact LockFixpointPinned.fixpoint_pinned_lemma. Qed.
+Print Assumptions c09_fixpoint_pinned_partial.
+
+(* REFUTED without tags_attached (finding C09-F1) and without pinned_by_own_name
+   (finding C09-F8, found by this proof: it is the hypothesis the proof needed).
+   F1: world [a@edge], a -> d, both only in the tagged repository: unify attaches the
+   tag to a (requested by name) and not to d; the emitted lock cannot be resolved; with
+   the tag on d as well it reproduces the origin.
+   F8: r -> 0x -> a -> v, a and p1 (provides v) in the tagged repository, world
+   [a@edge p1@edge r]: every tagged member is requested with its tag, every entry carries
+   it, all other hypotheses hold — but in the lock the unrequested, untagged 0x sorts
+   first, its walk (which allows no tag) reaches a, and a's dependency on the virtual v
+   finds the tagged p1 filtered out.  Both replayed on the real code (api corpus). *)
+Theorem c09_fixpoint_pinned_refuted :
+  (let U := LockFixpointPinned.U_edge in let W := ["a@edge"] in let S := [1; 0]%nat in
+   ResolveSpec.envelope_b U W = true /\ Resolver.resolve U W [] = Ok S /\ Forall plain_request W /\
+   (forall j, In j S -> LockFixpointResolver.lockable (nth j U Resolver.dummy_pkg)) /\
+   unify_pin W "a" = "@edge" /\ unify_pin W "d" = "" /\
+   LockFixpointPinned.arch_lock W "amd64" U S = ["a=2.0@edge"; "d=3.0"] /\
+   Resolver.resolve U (LockFixpointPinned.arch_lock W "amd64" U S) [] = Err /\
+   Resolver.resolve U ["a=2.0@edge"; "d=3.0@edge"] [] = Ok S) /\
+  (let U := LockFixpointPinned.U_edge_virtual in let W := ["a@edge"; "p1@edge"; "r"] in let S := [3; 2; 1; 0]%nat in
+   ResolveSpec.envelope_b U W = true /\ Resolver.resolve U W [] = Ok S /\ Forall plain_request W /\
+   (forall j, In j S -> LockFixpointResolver.lockable (nth j U Resolver.dummy_pkg)) /\
+   LockFixpointPinned.versions_parse U S /\ LockFixpointPinned.tags_attached (unify_pin W) U S /\
+   LockFixpointSuccess.no_member_excluded U S /\ LockFixpointSuccess.deps_wellformed U S /\
+   ~ LockFixpointPinned.pinned_by_own_name U S /\
+   LockFixpointPinned.arch_lock W "amd64" U S = ["0x=1.0"; "a=1.0@edge"; "p1=1.0@edge"; "r=1.0"] /\
+   Resolver.resolve U (LockFixpointPinned.arch_lock W "amd64" U S) [] = Err).
+Proof. split; [exact LockFixpointPinned.pinned_refuted_F1 | exact LockFixpointPinned.pinned_refuted_F8]. Qed.
+Print Assumptions c09_fixpoint_pinned_refuted.
+
+(* finding C09-F5, its mechanism (Model/LockBuild.v).  `apko lock` lists the packages of
+   an architecture in the order in which the REQUEST list resolves (lockfile_order); the
+   locked build hands the entries of its architecture to the installer in file order
+   (first statement; c09_lock_install); `apko build` without a lock file first calls
+   LockImageConfiguration and resolves configs[arch], so it installs in the order in which
+   the LOCK list resolves (unlocked_order).  The two orders differ on x -> v, w0; z0
+   provides v (second statement; replayed by the cli corpus); they are equal as soon as
+   the lock file lists the packages in unlocked_order (third statement: what a repair of
+   LockCmd has to establish — resolve the locked configuration, as the build does). *)
+Theorem c09_locked_vs_unlocked_install_order :
+  (forall U arch order (lockpkgs : list lock_pkg),
+     for_arch arch lockpkgs = List.map (LockBuild.lock_pkg_at U arch) order ->
+     installable_for_arch lockpkgs arch = Ok (List.map (LockBuild.installable_at U) order)) /\
+  (let U := LockBuildProofs.U_order in
+   LockBuild.lockfile_order U ["x"] = Ok [2; 1; 0]%nat /\
+   LockBuild.locked_packages U "amd64" ["x"] [2; 1; 0]%nat = Ok ["w0=1.0"; "x=1.0"; "z0=1.0"] /\
+   LockBuild.unlocked_order U "amd64" ["x"] = Ok [1; 2; 0]%nat) /\
+  (forall U arch packages order (lockpkgs : list lock_pkg),
+     LockBuild.unlocked_order U arch packages = Ok order ->
+     for_arch arch lockpkgs = List.map (LockBuild.lock_pkg_at U arch) order ->
+     installable_for_arch lockpkgs arch = Ok (List.map (LockBuild.installable_at U) order)).
+Proof.
+  split; [exact LockBuildProofs.locked_build_installs_file_order|].
+  split; [exact LockBuildProofs.order_differs | exact LockBuildProofs.same_order_when_lock_lists_unlocked_order].
+Qed.
+Print Assumptions c09_locked_vs_unlocked_install_order.
+
 (* the validators run on the implementation's observed outputs decide the
    readable statements *)
 Theorem c09_validators_decide :
@@ -296,3 +478,46 @@ Example c09_fixpoint_hypotheses_consistent :
   admitted [ka] (lock_entry_of ka) ka /\
   (forall k', In k' [ka] -> admitted [ka] (lock_entry_of ka) k' -> k' = ka).
 Proof. split; [vm_compute; left; reflexivity | intros k' [<-|[]] _; reflexivity]. Qed.
+
+(* session 4: the hypotheses of the positive clause of c09_fixpoint_pinned_partial are satisfiable with a member of a
+   tagged repository: a (tagged, requested a@edge) -> d, b -> a; the emitted lock [a=2.0@edge b=1.0 d=3.0] resolves to its origin *)
+Example c09_fixpoint_pinned_example :
+  let U := LockFixpointPinned.U_edge_ok in let W := ["a@edge"; "b"] in let S := [1; 0; 2]%nat in
+  ResolveSpec.envelope_b U W = true /\ Resolver.resolve U W [] = Ok S /\ Forall plain_request W /\
+  (forall j, In j S -> LockFixpointResolver.lockable (nth j U Resolver.dummy_pkg)) /\
+  LockFixpointPinned.versions_parse U S /\ LockFixpointPinned.tags_attached (unify_pin W) U S /\ LockFixpointPinned.pinned_by_own_name U S /\
+  LockFixpointSuccess.no_member_excluded U S /\ LockFixpointSuccess.deps_wellformed U S /\
+  LockFixpointPinned.arch_lock W "amd64" U S = ["a=2.0@edge"; "b=1.0"; "d=3.0"] /\
+  Resolver.resolve U (LockFixpointPinned.arch_lock W "amd64" U S) [] = Ok [1; 0; 2]%nat.
+Proof. exact LockFixpointPinned.pinned_example. Qed.
+
+(* the hypotheses of c09_unify_arch_order_independent / _lists_equal are satisfiable: two architectures that agree on the
+   provider of the requested virtual v, in both orders *)
+Example c09_unify_arch_order_example :
+  let r1 := resolved_of "amd64" [{| p_name := "p1"; p_version := "1.0-r0"; p_provides := ["v=1"] |};
+                                 {| p_name := "b"; p_version := "2.0-r0"; p_provides := [] |}] in
+  let r2 := resolved_of "arm64" [{| p_name := "b"; p_version := "2.1-r0"; p_provides := ["so:x=1"] |};
+                                 {| p_name := "p1"; p_version := "1.0-r0"; p_provides := ["v=1"] |}] in
+  agree_on (o_packages (parse_originals ["v"; "p1@edge"])) [r1; r2] /\ plain_request "p1@edge" /\
+  unify id_ord id_ordp ["v"; "p1@edge"] [r1; r2] = Ok ([("index", ["p1=1.0-r0@edge"]); ("amd64", ["b=2.0-r0"; "p1=1.0-r0@edge"]); ("arm64", ["b=2.1-r0"; "p1=1.0-r0@edge"])],
+                                                    [("amd64", ["b"]); ("arm64", ["b"])]) /\
+  unify id_ord id_ordp ["v"; "p1@edge"] [r2; r1] = Ok ([("index", ["p1=1.0-r0@edge"]); ("arm64", ["b=2.1-r0"; "p1=1.0-r0@edge"]); ("amd64", ["b=2.0-r0"; "p1=1.0-r0@edge"])],
+                                                    [("arm64", ["b"]); ("amd64", ["b"])]).
+Proof.
+  cbv zeta. split; [|split; [|split]].
+  - set (r1 := resolved_of "amd64" _). set (r2 := resolved_of "arm64" _).
+    assert (E1 : r_provided r1 = [("p1", ["v"])]) by (vm_compute; reflexivity).
+    assert (E2 : r_provided r2 = [("b", ["so:x"]); ("p1", ["v"])]) by (vm_compute; reflexivity).
+    assert (EN : o_packages (parse_originals ["v"; "p1@edge"]) = ["v"; "p1"]) by (vm_compute; reflexivity).
+    intros n r r' p Hn Hr Hr'. rewrite EN in Hn.
+    assert (G : forall x, In x [r1; r2] -> (In n (pget p (r_provided x)) <-> (n = "v" /\ p = "p1"))).
+    { intros x [<-|[<-|[]]]; unfold pget; [rewrite E1 | rewrite E2]; cbn [alookup];
+        destruct (String.eqb_spec p "p1") as [->|N1]; cbn [String.eqb Ascii.eqb Bool.eqb];
+        try (destruct (String.eqb_spec p "b") as [->|N2]); simpl;
+        destruct Hn as [<-|[<-|[]]]; split; try tauto; try (intros [H|[]]; discriminate); try (intros [H|[]]; tauto);
+        try (intros [A B]; congruence). }
+    rewrite (G r Hr), (G r' Hr'). tauto.
+  - split; vm_compute; reflexivity.
+  - vm_compute. reflexivity.
+  - vm_compute. reflexivity.
+Qed.
